@@ -159,7 +159,7 @@ func schemaCmd(args []string) int {
 	fs.Parse(args)
 	setKnown(*kn)
 	st := NewStats("schema", *seed)
-	st.Rule = "table definitions built from structures: 1-5 columns with names that need and do not need quoting (spaces, '-', '.', non-ASCII, embedded quotes, keywords), optional known/unknown type words, constraint words in any order (PRIMARY KEY, NOT NULL, UNIQUE, DEFAULT/CHECK/REFERENCES/COLLATE), table-level PRIMARY KEY(...) with one or several names, duplicate names (also differing only in case); one definition in ten has a malformed text (trailing comma, NOT NULL / PRIMARY KEY written as one word) and must be rejected; the declared type of every column must be the type word written (none where none was written); s3_prefix is given in numeric-looking and quoted spellings and must be used as written; one definition in six is given a storage that cannot be opened (s3_endpoint without s3_bucket, or the first storage request failing) and must be rejected like any other; options well-formed, malformed (text, 1e3, empty, out of range), negative, missing a value, given a value they must not have, duplicated, unknown, misspelt; each structure is rendered with random quoting style, keyword case and white space and run through the real CREATE VIRTUAL TABLE; compared with the Lean decision on the structure: accept/reject, declared column names/order/key/NOT NULL (PRAGMA table_info), parsed option values (GetTable); plus: a rejected definition leaves no table registered and the bucket as it was (one bucket in four, and every bucket of a definition with duplicate column names, already holds two unmerged versions, so that an open would store a merge), NOT NULL and key uniqueness are enforced on an accepted one; each definition runs in a child process; non-trivial = not the plain valid definition; distinct = distinct structure"
+	st.Rule = "table definitions built from structures: 1-5 columns with names that need and do not need quoting (spaces, '-', '.', non-ASCII, embedded quotes, keywords), optional known/unknown type words, constraint words in any order (PRIMARY KEY, NOT NULL, UNIQUE, DEFAULT/CHECK/REFERENCES/COLLATE), table-level PRIMARY KEY(...) with one or several names (the name also in another case than the column's), duplicate names (also differing only in case); one definition in ten has a malformed text (trailing comma, NOT NULL / PRIMARY KEY written as one word) and must be rejected; the declared type of every column must be the type word written (none where none was written); s3_prefix is given in numeric-looking and quoted spellings and must be used as written; one definition in six is given a storage that cannot be opened (s3_endpoint without s3_bucket, or the first storage request failing) and must be rejected like any other; options well-formed, malformed (text, 1e3, empty, out of range), negative, missing a value, given a value they must not have, duplicated, unknown, misspelt; each structure is rendered with random quoting style, keyword case and white space and run through the real CREATE VIRTUAL TABLE; compared with the Lean decision on the structure: accept/reject, declared column names/order/key/NOT NULL (PRAGMA table_info), parsed option values (GetTable); plus: a rejected definition leaves no table registered and the bucket as it was (one bucket in four, and every bucket of a definition with duplicate column names, already holds two unmerged versions, so that an open would store a merge), NOT NULL and key uniqueness are enforced on an accepted one; each definition runs in a child process; non-trivial = not the plain valid definition; distinct = distinct structure"
 	isChild, from, to := childRange()
 	var e *Emitter
 	if !isChild {
@@ -197,7 +197,15 @@ func schemaCmd(args []string) int {
 		if r.Chance(5, 6) {
 			k := r.Intn(nc)
 			if r.Chance(1, 4) {
-				items = append(items, scItem{tpk: []string{items[k].col.name}})
+				// the clause may spell the column in another case: SQLite's names are case-insensitive (F96)
+				kn := items[k].col.name
+				switch r.Intn(4) {
+				case 0:
+					kn = strings.ToUpper(kn)
+				case 1:
+					kn = strings.ToLower(kn)
+				}
+				items = append(items, scItem{tpk: []string{kn}})
 			} else {
 				c := items[k].col
 				if r.Bool() {
